@@ -181,6 +181,10 @@ func init() {
 			return out
 		},
 
+		"reflect.DeepEqual": func(fr *frame, a []value) value {
+			return fr.i.deepEqual(a[0], a[1], 0)
+		},
+
 		"runtime.GOMAXPROCS": func(fr *frame, a []value) value { return 1 },
 		"runtime.NumCPU":     func(fr *frame, a []value) value { return 1 },
 		"runtime.Gosched":    func(fr *frame, a []value) value { return nil },
@@ -983,3 +987,107 @@ func errorIface() *types.Interface {
 }
 
 var _ = fmt.Sprint
+
+// deepEqual: reflect.DeepEqual on engine values (symbolic scalars are compared by a decision).
+func (i *interpreter) deepEqual(x, y value, depth int) bool {
+	if depth > 50 {
+		i.abort(abortUnsupported, "reflect.DeepEqual: structure too deep")
+	}
+	switch a := x.(type) {
+	case iface:
+		b, ok := y.(iface)
+		if !ok {
+			return false
+		}
+		if a.t == nil || b.t == nil {
+			return a.t == nil && b.t == nil
+		}
+		if !types.Identical(a.t, b.t) {
+			return false
+		}
+		return i.deepEqual(a.v, b.v, depth+1)
+	case structure:
+		b, ok := y.(structure)
+		if !ok || len(a) != len(b) {
+			return false
+		}
+		for k := range a {
+			if !i.deepEqual(a[k], b[k], depth+1) {
+				return false
+			}
+		}
+		return true
+	case array:
+		b, ok := y.(array)
+		if !ok || len(a) != len(b) {
+			return false
+		}
+		for k := range a {
+			if !i.deepEqual(a[k], b[k], depth+1) {
+				return false
+			}
+		}
+		return true
+	case []value:
+		b, ok := y.([]value)
+		if !ok || (a == nil) != (b == nil) || len(a) != len(b) {
+			return false
+		}
+		for k := range a {
+			if !i.deepEqual(a[k], b[k], depth+1) {
+				return false
+			}
+		}
+		return true
+	case *value:
+		b, ok := y.(*value)
+		if !ok {
+			return false
+		}
+		if a == b {
+			return true
+		}
+		if a == nil || b == nil {
+			return false
+		}
+		return i.deepEqual(*a, *b, depth+1)
+	case *smap:
+		b, ok := y.(*smap)
+		if !ok {
+			return false
+		}
+		if a == b {
+			return true
+		}
+		if (a == nil) != (b == nil) || a.len() != b.len() {
+			return false
+		}
+		for _, e := range a.live() {
+			found := false
+			for _, f := range b.live() {
+				if i.deepEqual(e.key, f.key, depth+1) {
+					found = true
+					if !i.deepEqual(e.val, f.val, depth+1) {
+						return false
+					}
+				}
+			}
+			if !found {
+				return false
+			}
+		}
+		return true
+	case nil:
+		return y == nil
+	}
+	if isStrVal(x) && isStrVal(y) {
+		return i.decide(i.eqTerm(nil, x, y), "reflect.DeepEqual (strings)")
+	}
+	if _, ok := x.(*Sym); ok {
+		return i.decide(i.eqTerm(nil, x, y), "reflect.DeepEqual")
+	}
+	if _, ok := y.(*Sym); ok {
+		return i.decide(i.eqTerm(nil, x, y), "reflect.DeepEqual")
+	}
+	return x == y
+}
